@@ -33,7 +33,11 @@ OkTiny(o) ==
 \* change nothing was made (a refused request, a rejected buffer, an idle timer call) are the same
 \* events afterwards
 OkEvKeep(o) == o.before > 0 /\ o.after = o.before /\ o.same /\ o.refused
-Ok(o) == IF o.op = "tiny" THEN OkTiny(o) ELSE IF o.op = "evkeep" THEN OkEvKeep(o) ELSE OkC15(o)
+\* "timer" records (C06): one request, one timer call dn nanoseconds from a slot boundary / the deadline:
+\* a packet goes out or the request fails iff the boundary has been reached
+OkTimer(o) == o.sent /\ (o.fired <=> (o.dn >= 0))
+Ok(o) == IF o.op = "tiny" THEN OkTiny(o) ELSE IF o.op = "evkeep" THEN OkEvKeep(o)
+         ELSE IF o.op = "timer" THEN OkTimer(o) ELSE OkC15(o)
 PropOf(o) == IF "prop" \in DOMAIN o THEN o.prop ELSE "C15"
 
 VARIABLES l, nbad
